@@ -114,7 +114,9 @@ def pipeline_sizes(R):
     from openpyxl import Workbook
     d = os.path.join(C.BUILD, 'c08')
     os.makedirs(d, exist_ok=True)
-    books = {'Stock': [[5, 7, 0], [3, 0, 0], [0, 0, 0]], 'Flags': [[True, False], [False, False]], 'Mixed': [[1, 'x', 0], [2, None, 0], [None, None, None], [0, None, False]]}
+    books = {'Stock': [[5, 7, 0], [3, 0, 0], [0, 0, 0]], 'Flags': [[True, False], [False, False]], 'Mixed': [[1, 'x', 0], [2, None, 0], [None, None, None], [0, None, False]],
+             # a sheet whose TITLE is the number of another sheet: addressed by title it is this sheet, by number the first one
+             '0': [[9, 8], [0, 4]]}
     wb = Workbook()
     first = True
     for t, rows in books.items():
@@ -143,6 +145,10 @@ def pipeline_sizes(R):
                     want = rows[r][c] if c < len(rows[r]) else None
                     one = e.get_cell(I.Cell(i, c, r)).value
                     got = grid[r][c].value
+                    by_title = e.get_cell(I.Cell(t, chr(65 + c), str(r + 1))).value
+                    if E.canon(('ok', by_title)) != E.canon(('ok', got)):
+                        fail = 'sheet %r, row %d column %d: get_sheet(%r) gives %r, get_cell(Cell(%r, %r, %r)) gives %r' % (
+                            t, r + 1, c + 1, t, got, t, chr(65 + c), str(r + 1), by_title)
                     if E.canon(('ok', one)) != E.canon(('ok', got)) or (want is not None and (type(got) is not type(want) or got != want)):
                         fail = 'sheet %r, row %d column %d: get_sheet gives %r, get_cell gives %r, the file stores %r' % (t, r + 1, c + 1, got, one, want)
         if fail:
